@@ -348,7 +348,13 @@ pub fn explore(cfg: &RunCfg, known: &Known) -> Report {
                             }
                             *out.op_class.entry((op.kind(), r.class)).or_insert(0) += 1;
                             *out.outcomes.entry((op.kind(), r.outcome.class())).or_insert(0) += 1;
-                            let shaped_out = r.failures.iter().any(|f| f.shaping);
+                            // history-based properties (payloads, liveness, slots) go on past a
+                            // successor whose links alone differ from the model, as long as the model
+                            // could be advanced; the model keeps following the documented semantics
+                            let shaped_out = r
+                                .failures
+                                .iter()
+                                .any(|f| f.shaping && !(cfg.judge.lenient_links && step::is_linkish(f)));
                             for f in r.failures {
                                 out.fails.push((*idx, op, f));
                             }
@@ -515,7 +521,9 @@ pub fn explore(cfg: &RunCfg, known: &Known) -> Report {
                     rep.traces_validated += 1;
                 }
             }
-            let bad = fails.iter().any(|f| f.shaping);
+            let bad = fails
+                .iter()
+                .any(|f| f.shaping && !(cfg.judge.lenient_links && step::is_linkish(f)));
             for f in fails {
                 record(f, idx, None, &recs, &mut rep, &mut viol, &mut viol_order);
             }
